@@ -383,6 +383,60 @@ fn main_check(ctx: &Ctx) -> Outcome {
     });
     out.push_part(json!({"system":"every BMP character after each of 9 sequence prefixes (strip_str, strip_bytes, streams, StripStr split)","characters":n_bmp,"prefixes":prefixes.len()}));
 
+    // (4b) medium-length inputs in every kind of parser state: a sequence prefix, optionally a whitespace control
+    //      (printable even inside a sequence), k plain bytes (k = 0..=40: block-wise fast paths of 4/8/16/32 bytes),
+    //      a multi-byte character, a tail - through the text and byte one-shot APIs and the incremental text API cut
+    //      after the prefix
+    {
+        let prefixes: [&str; 10] = ["", "\x1b", "\x1b[", "\x1b[1", "\x1b[1;", "\x1b]", "\x1b]0;t", "\x1bP", "\x1bP1q", "\x1b_"];
+        let cases: Vec<(usize, usize)> = (0..prefixes.len()).flat_map(|p| (0..=40usize).map(move |k| (p, k))).collect();
+        let n_medium = std::sync::atomic::AtomicU64::new(0);
+        cases.par_iter().for_each(|&(pi, k)| {
+            let pre = prefixes[pi];
+            for ws in ["", "\n", "\t", "\r", "\x0c"] {
+                for ch in ['\u{e9}', '\u{4e16}', '\u{1f600}', 'z'] {
+                    for (mid, tail) in [("", ""), ("", "b"), ("", "bbbbbbbbbbbbbbbbbbbbm\x07x"), ("\x18", "b"), ("\x1a", "bbbbbbbbbbbbbbbbbbbbm\x07x"), ("\x07", "bb")] {
+                        let input = format!("{pre}{ws}{}{mid}{ch}{tail}", "a".repeat(k));
+                        n_medium.fetch_add(1, Ordering::Relaxed);
+                        evals.fetch_add(3, Ordering::Relaxed);
+                        let mut errs: Vec<(String, String)> = vec![];
+                        if let Err(e) = guard(|| oneshot_str(&input)).unwrap_or_else(|p| Err(("strip_str".to_string(), p))) {
+                            errs.push(e);
+                        }
+                        if let Err(e) = guard(|| oneshot_bytes(input.as_bytes())).unwrap_or_else(|p| Err(("strip_bytes/streams".to_string(), p))) {
+                            errs.push(e);
+                        }
+                        let (mut imp, mut model) = (StripStr::new(), StripModel::default());
+                        let r = guard(|| {
+                            run_strip_str(&mut imp, &mut model, pre)?;
+                            run_strip_str(&mut imp, &mut model, &input[pre.len()..])
+                        })
+                        .and_then(|r| r);
+                        if let Err(m) = r {
+                            errs.push(("StripStr::strip_next/chunk".to_string(), m));
+                        }
+                        let (mut impb, mut modelb) = (StripBytes::new(), StripModel::default());
+                        let r = guard(|| {
+                            run_strip_bytes(&mut impb, &mut modelb, pre.as_bytes())?;
+                            run_strip_bytes(&mut impb, &mut modelb, &input.as_bytes()[pre.len()..])
+                        })
+                        .and_then(|r| r);
+                        if let Err(m) = r {
+                            errs.push(("StripBytes::strip_next/chunk".to_string(), m));
+                        }
+                        for (sys, m) in errs {
+                            let mut v = viol.lock().unwrap();
+                            if v.len() < 200 {
+                                v.push(finding(&sys, &clause_of(&m), vec![hex(input.as_bytes())], m, json!({"kind":"oneshot-str","input":hex(input.as_bytes())})));
+                            }
+                        }
+                    }
+                }
+            }
+        });
+        out.push_part(json!({"system":"medium-length inputs: 10 prefixes x 5 whitespace controls x 0..=40 plain bytes x 4 characters x 6 (terminator, tail) pairs (strip_str, strip_bytes, streams, StripStr and StripBytes split after the prefix)","inputs":n_medium.load(Ordering::Relaxed)}));
+    }
+
     // (5) large inputs (around the 4/8/16/64 KiB marks), the unit shifted over every offset: one-shot APIs and
     //     streams, and the incremental APIs with the input cut at 8192 (and at 1000)
     {
